@@ -147,14 +147,14 @@ class Scoreboard:
 
         intervals: list[TimeInterval] = []
         duration = 0
-        start = 0
+        start = -1  # -1: no run open (0 is a valid slot index)
 
         idx = startIdx
         while idx <= endIdx:
             # yield/predicate check
             val = self.sb[idx] if idx < len(self.sb) else None  # Boundary check
             if predicate(val) and idx < endIdx:
-                if start == 0:
+                if start < 0:
                     start = idx
                 duration += 1
             else:
@@ -166,9 +166,12 @@ class Scoreboard:
                         if current_idx > eIdx:
                             current_idx = eIdx
 
-                        intervals.append(TimeInterval(self.idxToDate(start), self.idxToDate(current_idx)))
+                        # Runs in the widened scan range that do not reach into the
+                        # query window are not part of the answer
+                        if start < current_idx:
+                            intervals.append(TimeInterval(self.idxToDate(start), self.idxToDate(current_idx)))
                     duration = 0
-                    start = 0
+                    start = -1
             idx += 1
 
         return intervals
